@@ -46,7 +46,20 @@ static std::uint32_t g_wst = 0, g_wld = 0;
 void yk_watch(const void* p) { g_watch = p; g_wst = 0; g_wld = 0; }
 std::uint32_t yk_watch_store_count(void) { return g_wst; }
 std::uint32_t yk_watch_load_count(void) { return g_wld; }
+// intruder mode replay: the other thread's whole operation runs inside the g_fire_at-th LOAD/STORE hook of the caller
+static void (*g_intruder)() = nullptr;
+static unsigned g_fire_at = 0, g_hookno = 0, g_fired = 0;
+void yk_intruder(void (*fn)()) { g_intruder = fn; }
+std::uint32_t yk_intruder_state(void) { return g_fired; }
 void yakushima_verif_hook(int kind, const void* addr) {
+    if ((kind == 0 || kind == 1) && g_fired == 0 && g_intruder != nullptr) {
+        ++g_hookno;
+        if (g_fire_at != 0 && g_hookno == g_fire_at) {
+            g_fired = 1;
+            g_intruder();
+            g_fired = 2;
+        }
+    }
     if (addr != nullptr && addr == g_watch) {
         if (kind == 1) ++g_wst;
         else if (kind == 0) ++g_wld;
@@ -277,6 +290,10 @@ int main(int argc, char** argv) {
             unsigned long long v = 0;
             if (std::fscanf(f, "%llu", &v) != 1) break;
             g_in.push_back(v);
+        } else if (tag[0] == 'F') {
+            unsigned a = 0, b = 0, c = 0;
+            if (std::fscanf(f, "%u %u %u", &a, &b, &c) != 3) break;
+            g_fire_at = a;
         } else if (tag[0] == 'S') {
             unsigned t = 0, len = 0, fin = 0;
             if (std::fscanf(f, "%u %u %u", &t, &len, &fin) != 3) break;
